@@ -157,6 +157,119 @@ theorem step_publish {k : Nat} {s : St} (pre post : List Task) (o : Obs) (b : Bo
     · exact publish_phase _ _ _ _ _ _ _ _ _ _ _ owf.1 t (I.phase t (by simp [h]))
     · exact publish_phase _ _ _ _ _ _ _ _ _ _ _ owf.1 t (I.phase t (by simp [h]))
 
+/-- the invariant does not look at the ORDER of the steps a collector still has to take: replacing
+    its list by a duplicate-free one with the same elements keeps `Inv` -/
+theorem inv_todo_congr {k : Nat} {s : St} (pre post : List Task) (cold : Bool) (ov : Nat)
+    (todo todo' : List CStep) (taken : Cells) (S : List Obs)
+    (ht : s.tasks = pre ++ Task.colMove cold ov todo taken S :: post)
+    (hn : todo'.Nodup) (hm : ∀ x, x ∈ todo' ↔ x ∈ todo)
+    (I : Inv k s) : Inv k { s with tasks := pre ++ Task.colMove cold ov todo' taken S :: post } := by
+  have hW : ∀ b', pendW b' (pre ++ Task.colMove cold ov todo' taken S :: post) = pendW b' s.tasks := by
+    intro b'; simp [ht, tw]
+  have hC : ∀ b' c, pend b' c (pre ++ Task.colMove cold ov todo' taken S :: post) = pend b' c s.tasks := by
+    intro b' c; simp [ht, tc]
+  refine ⟨?_, I.awf, I.zero, ?_, ?_, ?_, I.snapsOk⟩
+  · intro t h
+    simp only [List.mem_append, List.mem_cons] at h
+    rcases h with h | rfl | h
+    · exact I.twf t (by simp [ht, h])
+    · trivial
+    · exact I.twf t (by simp [ht, h])
+  · have := I.act; simp [ht, active] at this ⊢; exact this
+  · intro hl
+    exact normal_congr s _ s.lock hW hC (I.normal hl)
+  · intro t h
+    simp only [List.mem_append, List.mem_cons] at h
+    rcases h with h | rfl | h
+    · exact phase_congr s _ s.lock hW hC t (I.phase t (by simp [ht, h]))
+    · have h0 := phase_congr (k := k) s (pre ++ Task.colMove cold ov todo' taken S :: post) s.lock hW hC _
+        (I.phase (Task.colMove cold ov todo taken S) (by simp [ht]))
+      simp only [PhaseInv, MoveInv] at h0 ⊢
+      obtain ⟨f, m1, m2, m3, m4, m5, m6, m7, m8⟩ := h0
+      refine ⟨f, m1, m2, m3.of_mem_iff hn hm, m4, ?_, ?_, ?_, ?_⟩
+      · intro c hc; exact m5 c ((hm _).1 hc)
+      · intro c hc; exact m6 c (fun h => hc ((hm _).2 h))
+      · intro c; rw [m7 c]; simp only [hm]
+      · rw [m8]; simp only [hm]
+    · exact phase_congr s _ s.lock hW hC t (I.phase t (by simp [ht, h]))
+
+/-- the well-formedness of a collector's remaining steps, from the invariant -/
+theorem todoWf_of_inv {k : Nat} {s : St} {pre post : List Task} {cold : Bool} {ov : Nat}
+    {todo : List CStep} {taken : Cells} {S : List Obs}
+    (ht : s.tasks = pre ++ Task.colMove cold ov todo taken S :: post) (I : Inv k s) : TodoWf todo := by
+  have := I.phase (Task.colMove cold ov todo taken S) (by simp [ht])
+  simp only [PhaseInv, MoveInv] at this
+  exact this.2.2.2.1
+
+/-- taking ANY step `x` of the list: move it to the front (`inv_todo_congr`) -/
+theorem inv_todo_front {k : Nat} {s : St} (pre post : List Task) (cold : Bool) (ov : Nat)
+    (l1 l2 : List CStep) (x : CStep) (taken : Cells) (S : List Obs)
+    (ht : s.tasks = pre ++ Task.colMove cold ov (l1 ++ x :: l2) taken S :: post)
+    (I : Inv k s) : Inv k { s with tasks := pre ++ Task.colMove cold ov (x :: (l1 ++ l2)) taken S :: post } :=
+  inv_todo_congr pre post cold ov (l1 ++ x :: l2) (x :: (l1 ++ l2)) taken S ht
+    (List.perm_middle.nodup_iff.mp (todoWf_of_inv ht I).1)
+    (fun _ => List.perm_middle.mem_iff.symm) I
+
+/-- a `swap` taken from anywhere in the list keeps the invariant -/
+theorem step_swap_any {k : Nat} {s : St} (pre post : List Task) (cold : Bool) (ov : Nat) (c : Nat)
+    (l1 l2 : List CStep) (taken : Cells) (S : List Obs)
+    (ht : s.tasks = pre ++ Task.colMove cold ov (l1 ++ CStep.swap c :: l2) taken S :: post)
+    (I : Inv k s) : Inv k { s with
+        tasks := pre ++ Task.colMove cold ov (l1 ++ l2) (setCell taken c ((s.sh cold).cell c)) S :: post
+        sh := modSh s.sh cold (fun x => { x with cell := setCell x.cell c 0 }) } :=
+  step_swap (s := { s with tasks := pre ++ Task.colMove cold ov (CStep.swap c :: (l1 ++ l2)) taken S :: post })
+    pre post cold ov c (l1 ++ l2) taken S rfl (inv_todo_front pre post cold ov l1 l2 _ taken S ht I)
+
+/-- an `addHot c` taken from anywhere in the list, once `swap c` is done, keeps the invariant -/
+theorem step_addHot_any {k : Nat} {s : St} (pre post : List Task) (cold : Bool) (ov : Nat) (c : Nat)
+    (l1 l2 : List CStep) (taken : Cells) (S : List Obs)
+    (ht : s.tasks = pre ++ Task.colMove cold ov (l1 ++ CStep.addHot c :: l2) taken S :: post)
+    (hs : CStep.swap c ∉ l1 ++ l2)
+    (I : Inv k s) : Inv k { s with
+        tasks := pre ++ Task.colMove cold ov (l1 ++ l2) taken S :: post
+        sh := modSh s.sh (!cold) (fun x => { x with cell := setCell x.cell c (x.cell c + taken c) }) } :=
+  step_addHot (s := { s with tasks := pre ++ Task.colMove cold ov (CStep.addHot c :: (l1 ++ l2)) taken S :: post })
+    pre post cold ov c (l1 ++ l2) taken S rfl hs (inv_todo_front pre post cold ov l1 l2 _ taken S ht I)
+
+/-- the `addCount` taken from anywhere in the list keeps the invariant -/
+theorem step_addCount_any {k : Nat} {s : St} (pre post : List Task) (cold : Bool) (ov : Nat)
+    (l1 l2 : List CStep) (taken : Cells) (S : List Obs)
+    (ht : s.tasks = pre ++ Task.colMove cold ov (l1 ++ CStep.addCount :: l2) taken S :: post)
+    (I : Inv k s) : Inv k { s with
+        tasks := pre ++ Task.colMove cold ov (l1 ++ l2) taken S :: post
+        sh := modSh s.sh (!cold) (fun x => { x with count := x.count + ov }) } :=
+  step_addCount (s := { s with tasks := pre ++ Task.colMove cold ov (CStep.addCount :: (l1 ++ l2)) taken S :: post })
+    pre post cold ov (l1 ++ l2) taken S rfl (inv_todo_front pre post cold ov l1 l2 _ taken S ht I)
+
+/-- the old fixed order is one admissible order: taking the HEAD step of the list is an instance of the
+    any-order steps (`l1 = []`) -/
+theorem Step.swap_head {k : Nat} (s : St) (pre post : List Task) (cold : Bool) (ov c : Nat)
+    (todo : List CStep) (taken : Cells) (S : List Obs)
+    (ht : s.tasks = pre ++ Task.colMove cold ov (CStep.swap c :: todo) taken S :: post) :
+    Step k s { s with
+      tasks := pre ++ Task.colMove cold ov todo (setCell taken c ((s.sh cold).cell c)) S :: post
+      sh := modSh s.sh cold (fun x => { x with cell := setCell x.cell c 0 }) } :=
+  Step.swap s pre post cold ov c [] todo taken S ht
+
+/-- … for `addHot c` at the head, provided `swap c` is not behind it (in `prog k` it stands before it) -/
+theorem Step.addHot_head {k : Nat} (s : St) (pre post : List Task) (cold : Bool) (ov c : Nat)
+    (todo : List CStep) (taken : Cells) (S : List Obs)
+    (ht : s.tasks = pre ++ Task.colMove cold ov (CStep.addHot c :: todo) taken S :: post)
+    (hs : CStep.swap c ∉ todo) :
+    Step k s { s with
+      tasks := pre ++ Task.colMove cold ov todo taken S :: post
+      sh := modSh s.sh (!cold) (fun x => { x with cell := setCell x.cell c (x.cell c + taken c) }) } :=
+  Step.addHot s pre post cold ov c [] todo taken S ht hs
+
+/-- … and for `addCount` at the head -/
+theorem Step.addCount_head {k : Nat} (s : St) (pre post : List Task) (cold : Bool) (ov : Nat)
+    (todo : List CStep) (taken : Cells) (S : List Obs)
+    (ht : s.tasks = pre ++ Task.colMove cold ov (CStep.addCount :: todo) taken S :: post) :
+    Step k s { s with
+      tasks := pre ++ Task.colMove cold ov todo taken S :: post
+      sh := modSh s.sh (!cold) (fun x => { x with count := x.count + ov }) } :=
+  Step.addCount s pre post cold ov [] todo taken S ht
+
 theorem inv_step {k : Nat} {s s' : St} (I : Inv k s) (h : Step k s s') : Inv k s' := by
   cases h with
   | spawnObs pre post o hw hu ht => exact step_spawnObs pre post o hw hu ht I
@@ -168,15 +281,24 @@ theorem inv_step {k : Nat} {s s' : St} (I : Inv k s) (h : Step k s s') : Inv k s
   | acquire pre post ht hl => exact step_acquire pre post ht hl I
   | flip pre post ht => exact step_flip pre post ht I
   | spinOk pre post cold ov S ht hc => exact step_spinOk pre post cold ov S ht hc I
-  | swap pre post cold ov c todo taken S ht => exact step_swap pre post cold ov c todo taken S ht I
-  | addHot pre post cold ov c todo taken S ht => exact step_addHot pre post cold ov c todo taken S ht I
-  | addCount pre post cold ov todo taken S ht => exact step_addCount pre post cold ov todo taken S ht I
-  | unlock pre post cold ov todo taken S ht => exact step_unlock pre post cold ov todo taken S ht I
+  | swap pre post cold ov c l1 l2 taken S ht => exact step_swap_any pre post cold ov c l1 l2 taken S ht I
+  | addHot pre post cold ov c l1 l2 taken S ht hs => exact step_addHot_any pre post cold ov c l1 l2 taken S ht hs I
+  | addCount pre post cold ov l1 l2 taken S ht => exact step_addCount_any pre post cold ov l1 l2 taken S ht I
+  | unlock pre post cold ov taken S ht => exact step_unlock pre post cold ov taken S ht I
 
 theorem inv_reach {k : Nat} {s : St} (h : Reach k s) : Inv k s := by
   induction h with
   | init => exact inv_init k
   | step _ hs ih => exact inv_step ih hs
+
+/-- in every reachable state the list of steps a collector still has to take is well-formed: no step occurs
+    twice (so no cold cell is swapped twice, no drained value added twice), and every cell that is still to be
+    swapped out is still to be added back -/
+theorem reach_todoWf {k : Nat} {s : St} (h : Reach k s) {cold : Bool} {ov : Nat} {todo : List CStep}
+    {taken : Cells} {S : List Obs} (ht : Task.colMove cold ov todo taken S ∈ s.tasks) : TodoWf todo := by
+  have := (inv_reach h).phase _ ht
+  simp only [PhaseInv, MoveInv] at this
+  exact this.2.2.2.1
 
 /-- C02 core: every snapshot ever returned equals the statistics of the list of
 observations claimed before that collector's flip (the ghost `S` recorded at the flip). -/
